@@ -1,0 +1,12 @@
+//go:build verif
+
+// Contracts checked by /verif/govc (comment-only file; adds no code).
+
+package pkix
+
+//@ pure func subsetDN(a map[string]string, b map[string]string) bool = forallkeys(k, a, has(b, k) && a[k] == b[k])
+
+//@ func IsSubsetDN
+//@ props C04
+//@ ensures[C04.subset] result == subsetDN(dn1, dn2)
+//@ loop 1 invariant forall(k, string, visited(k) ==> has(dn2, k) && dn1[k] == dn2[k])
